@@ -335,3 +335,114 @@ def option_value_table(prog, chk):
             bool(v["opt->flags"] & AF), bool(v["opt->flags"] & OF), "non-empty" if v["*this->arg"] else "empty", "available" if v["this->nextChar()"] else "missing", why), evals=total2)
     else:
         chk.ok("C20.f", rd, "short options: %d combinations agree with the getopt decision table" % total2, where, "finite valuation of the guards", evals=total2)
+    quoted_word_typestate(prog, chk, "C20.h")
+
+
+def quoted_word_typestate(prog, chk, rid):
+    """typestate over the command-line splitter: a word opened by a quote is emitted before the next separator is consumed / the
+    function returns, also when nothing was accumulated for it (`""` denotes an empty argument).
+    abstract state: set of (accumulator empty?, quoted word pending?, values of the bool locals)"""
+    chk.rule(rid, "typestate: in splitCommandLine a word opened by `\"` is appended to the argument list before the next separator has been "
+                  "consumed and before the function returns, also when it is empty (states: accumulator empty x quoted word pending x flags)", floor=2)
+    fs = [f for f in prog.functions.values() if f.name.endswith("splitCommandLine") and f.file.endswith("Process.cpp")]
+    if not fs:
+        raise AnalysisBroken("splitCommandLine not found")
+    f = fs[0]
+    out = f.params[1]["n"]
+    acc = None
+    flags = []
+    for n in f.nodes:
+        if n["k"] == "DeclStmt":
+            for d in n["decls"]:
+                if d.get("t") == "String" and acc is None:
+                    acc = d["n"]
+                if d.get("t") == "bool":
+                    flags.append(d["n"])
+    if acc is None:
+        raise AnalysisBroken("splitCommandLine: accumulator String local not found")
+    flags = sorted(flags)
+
+    def is_emit(n):
+        return n["k"] == "CXXMemberCallExpr" and re.match(r"^%s\.append\(%s\)$" % (re.escape(out), re.escape(acc)), f.r(n["i"]))
+
+    def transfer(st, e):
+        if not isinstance(e, int):
+            return st
+        n = f.nodes[e]
+        res = set()
+        for (empty, pend, fl) in st:
+            if n["k"] == "CXXMemberCallExpr":
+                t = f.r(e)
+                if is_emit(n):
+                    pend = False
+                elif re.match(r"^%s\.append\(" % re.escape(acc), t):
+                    empty = False
+                elif t == "%s.clear()" % acc:
+                    empty = True
+            elif n["k"] == "DeclStmt":
+                for d in n["decls"]:
+                    if d["n"] in flags and d.get("init") is not None:
+                        v = fin.eval_expr(f, d["init"], {})
+                        fl = tuple(((bool(v) if v is not None else None) if nm == d["n"] else x) for nm, x in zip(flags, fl))
+            elif n["k"] == "BinaryOperator" and n["op"] == "=" and f.r(n["c"][0]) in flags:
+                v = fin.eval_expr(f, n["c"][1], {})
+                fl = tuple(((bool(v) if v is not None else None) if nm == f.r(n["c"][0]) else x) for nm, x in zip(flags, fl))
+            res.add((empty, pend, fl))
+        return frozenset(res)
+
+    def refine(st, blk, k):
+        s = blk["succ"][k]
+        res = set(st)
+        if blk.get("tk") == "SwitchStmt":
+            lab = f.blocks[s].get("label")
+            if lab is not None and f.nodes[lab]["k"] == "CaseStmt" and f.nodes[lab].get("v") == 0x22:
+                res = set((e, True, fl) for (e, p, fl) in res)
+            return frozenset(res)
+        c = blk.get("cond")
+        if c is None or len(blk["succ"]) != 2:
+            return frozenset(res)
+        for a, truth in q.cond_atoms(f, c, k == 0):
+            t = q.no_casts(f.r(a))
+            if t == "%s.isEmpty()" % acc:
+                res = set(x for x in res if x[0] == truth)
+            elif t in flags:
+                i = flags.index(t)
+                res = set(x for x in res if x[2][i] is None or x[2][i] == truth)
+        return frozenset(res) if res else None
+
+    init = frozenset({(True, False, tuple(None for _ in flags))})
+    sin, sat = q.forward(f, init, transfer, refine, lambda a, b: a | b)
+    where = "%s:%s" % (f.file, f.line)
+    # boundary 1: the function exit
+    ex = sin.get(f.exit) or frozenset()
+    lost = [x for x in ex if x[1]]
+    if lost:
+        chk.bad(rid, f, "quoted-word-dropped-at-end", where,
+                "the function can return while a quote-opened word is pending (accumulator empty: %s): a trailing `\"\"` yields no argument, "
+                "the child receives one argument fewer" % sorted(set(x[0] for x in lost)), evals=len(ex))
+    else:
+        chk.ok(rid, f, "no quoted word pending at return", where, "%d abstract states at the exit" % len(ex), evals=max(1, len(ex)))
+    # boundary 2: the end of every separator case (case ' ' of a switch on the cursor)
+    seps = [b for b in f.blocks.values() if b.get("label") is not None and f.nodes[b["label"]]["k"] == "CaseStmt" and f.nodes[b["label"]].get("v") == 0x20]
+    if not seps:
+        raise AnalysisBroken("splitCommandLine: no `case ' '` found")
+    for sb in seps:
+        # blocks of the case: dominated by the label block, up to the break
+        bad = None
+        n_states = 0
+        for b in f.blocks:
+            if not f.dominates_pos((sb["id"], 0), (b, 0)):
+                continue
+            blk = f.blocks[b]
+            for s in blk["succ"]:
+                if s is not None and not f.dominates_pos((sb["id"], 0), (s, 0)):
+                    st = sat.get((b, len(blk["el"]))) or frozenset()
+                    n_states += len(st)
+                    if any(x[1] for x in st):
+                        bad = [x for x in st if x[1]]
+        if bad:
+            chk.bad(rid, f, "quoted-word-dropped-at-separator", f.where(sb["label"]),
+                    "the separator case can finish while a quote-opened word is pending (accumulator empty: %s): in `prog a \"\" b` the empty "
+                    "argument vanishes and every later argument shifts by one" % sorted(set(x[0] for x in bad)), evals=n_states)
+        else:
+            chk.ok(rid, f, "separator emits the pending word", f.where(sb["label"]), "%d abstract states leave the case" % n_states, evals=max(1, n_states))
